@@ -48,7 +48,11 @@ class IWalker(pathsum.Walker):
         # comparison atoms are keyed by the canonical text of their operands: keep the operand expressions too
         # (exprs[key] = {canonical text: expression}) so that a rule can read what is compared, not parse text
         for (_, key, _) in out:
-            if key and key[0] == "cmp" and key not in self.exprs:
+            if key and key[0] == "cmp" and isinstance(self.exprs.get(key), tuple) and self.exprs[key][0] == "binop":
+                # the shared walker records the canonical comparison ("binop", op, a, b, …) with a, b in the order of the key
+                _b = self.exprs[key]
+                self.exprs[key] = {key[2]: strip_refs(_b[2]), key[3]: strip_refs(_b[3])}
+            elif key and key[0] == "cmp" and key not in self.exprs:
                 x = strip_refs(e)
                 while x[0] == "unop" and x[1] == "Not":
                     x = strip_refs(x[2])
